@@ -214,14 +214,13 @@ def extra_checks(tier, verdict, cov):
                 verdict.report(sig, {"engine": "E1-history", "check": "outside", "have": r["have"], "foreign": r["foreign"], "violation": v})
                 bad.append((r, v))
     # arguments that name no file at all: redo-whichdo (and redo) say so; nobody aborts
-    dg_root = os.path.join(root, "degenerate")
-    os.makedirs(dg_root + "/home", exist_ok=True)
-    os.makedirs(dg_root + "/p/.redo", exist_ok=True)
-    denv = common.base_env(bindir, dg_root + "/home")
+    # (in a jail: `redo-ifchange /..` makes the root directory its project and creates /.redo)
+    jail = common.make_jail(os.path.join(root, "degenerate"), bindir)
+    os.makedirs(str(jail / "p" / ".redo"), exist_ok=True)
     degenerate = ["/", "/..", "//", "/.", ".", "..", "./", "a/..", "a/../.."]
     for arg in degenerate:
         for tool in ("redo-whichdo", "redo-ifchange"):
-            rc, out, err = common.run_cmd([os.path.join(bindir, tool), arg], dg_root + "/p", denv, timeout=30)
+            rc, out, err = common.run_jailed(jail, ["/bin/" + tool, arg], "/p", timeout=30)
             if rc == 101 or "panicked" in err:
                 sig = {"kind": "abort-on-an-argument-that-names-no-file", "tool": tool, "argument": arg}
                 verdict.report(sig, {"engine": "E1-history", "check": "degenerate", "argument": arg, "tool": tool, "rc": rc, "stderr": err[-300:]})
@@ -604,11 +603,9 @@ def replay(path):
                                   "redo": r.get("redo")}, indent=1, ensure_ascii=False))
             bad = len(allbad)
         elif doc.get("check") == "degenerate":
-            d = str(common.scratch_root() / "c13dg")
-            os.makedirs(d + "/home", exist_ok=True)
-            os.makedirs(d + "/p/.redo", exist_ok=True)
-            bd = str(common.build_subject())
-            rc, out, err = common.run_cmd([os.path.join(bd, doc["tool"]), doc["argument"]], d + "/p", common.base_env(bd, d + "/home"), timeout=30)
+            jail = common.make_jail(common.scratch_root() / "c13dg", common.build_subject())
+            os.makedirs(str(jail / "p" / ".redo"), exist_ok=True)
+            rc, out, err = common.run_jailed(jail, ["/bin/" + doc["tool"], doc["argument"]], "/p", timeout=30)
             print(rc, err[-300:])
             bad = int(rc == 101 or "panicked" in err)
         elif doc.get("check") == "outside":
